@@ -30,6 +30,11 @@ type c14world struct {
 	ratio  *constant.Float // floating-point constant in use by @ratio
 	gdecl  *ir.Global      // global created as a declaration (no initializer, no linkage)
 	fdecl  *ir.Func        // function created as a declaration (no body)
+	linkG  bool            // the harness has set the linkage of gdecl / of the first function
+	linkF  bool
+	attrG  bool
+	initG  bool
+	bodyF  bool
 }
 
 func c14new() *c14world {
@@ -160,27 +165,34 @@ func c14ops() []c14op {
 		{"m.NewGlobal(declaration without linkage)", "append-global", "global", func(w *c14world) bool { return w.gdecl == nil }, func(w *c14world) {
 			w.gdecl = w.m.NewGlobal(w.name("d"), types.I32)
 		}},
-		{"give the declared global an initializer (Init = 42)", "define-declaration", "global-attr", func(w *c14world) bool { return w.gdecl != nil && w.gdecl.Init == nil }, func(w *c14world) {
+		{"give the declared global an initializer (Init = 42)", "define-declaration", "global-attr", func(w *c14world) bool { return w.gdecl != nil && !w.initG }, func(w *c14world) {
 			w.gdecl.Init = constant.NewInt(types.I32, 42)
+			w.initG = true
 		}},
 		{"set Linkage = internal on the declared global / the first function", "set-linkage", "global-attr", func(w *c14world) bool {
-			return (w.gdecl != nil && w.gdecl.Linkage == enum.LinkageNone) || (len(w.funcs) > 0 && w.funcs[0].Linkage == enum.LinkageNone)
+			// (decided on the harness's own record of what it has set, never on fields an
+			// observer might have written)
+			return (w.gdecl != nil && !w.linkG) || (len(w.funcs) > 0 && !w.linkF)
 		}, func(w *c14world) {
-			if w.gdecl != nil && w.gdecl.Linkage == enum.LinkageNone {
+			if w.gdecl != nil && !w.linkG {
 				w.gdecl.Linkage = enum.LinkageInternal
+				w.linkG = true
 			} else {
 				w.funcs[0].Linkage = enum.LinkageInternal
+				w.linkF = true
 			}
 		}},
 		{"m.NewFunc(declaration, no body)", "append-func", "global", func(w *c14world) bool { return w.fdecl == nil }, func(w *c14world) {
 			w.fdecl = w.m.NewFunc(w.name("fd"), types.I32, ir.NewParam("", types.I32))
 		}},
-		{"give the declared function a body", "define-declaration", "global-attr", func(w *c14world) bool { return w.fdecl != nil && len(w.fdecl.Blocks) == 0 }, func(w *c14world) {
+		{"give the declared function a body", "define-declaration", "global-attr", func(w *c14world) bool { return w.fdecl != nil && !w.bodyF }, func(w *c14world) {
 			b := w.fdecl.NewBlock("")
 			b.NewRet(w.fdecl.Params[0])
+			w.bodyF = true
 		}},
-		{"make the first global constant / thread_local / unnamed_addr", "set-attrs", "global-attr", func(w *c14world) bool { return len(w.m.Globals) > 0 && !w.m.Globals[0].Immutable }, func(w *c14world) {
+		{"make the first global constant / thread_local / unnamed_addr", "set-attrs", "global-attr", func(w *c14world) bool { return len(w.m.Globals) > 0 && !w.attrG }, func(w *c14world) {
 			g := w.m.Globals[0]
+			w.attrG = true
 			g.Immutable = true
 			g.TLSModel = enum.TLSModelGeneric
 			g.UnnamedAddr = enum.UnnamedAddrUnnamedAddr
@@ -422,7 +434,15 @@ func c14run(ops []c14op, obs []c14obs, seq []int, obsAt, obsKind []int) (final s
 	}
 	for i, oi := range seq {
 		doObs(i)
-		ops[oi].do(w)
+		// an edit that is possible in the observer-free history (that is how the history was
+		// enumerated) must be possible after observers ran: if it fails now, observation has
+		// changed the IR.
+		if p := fw.Try(func() { ops[oi].do(w) }); p != "" {
+			if len(obsAt) == 0 {
+				panic("C14 harness: edit operation fails in the observer-free history: " + ops[oi].name + ": " + p)
+			}
+			return "", "edit operation \"" + ops[oi].name + "\" fails only after observers ran: " + p, "", ""
+		}
 	}
 	doObs(len(seq))
 	w.complete()
